@@ -90,7 +90,7 @@ func (propC17) Gen(seed uint64, tier string, idx int) any {
 		}
 	}
 	switch p.Img.Type {
-	case "paletted", "nrgba64", "sub":
+	case "paletted", "nrgba64", "sub", "nrgba64sub", "palsub", "rgbasub", "graysub":
 		p.Img.Type = "nrgba"
 	}
 	if idx%8 >= 4 && !p.Opt.HasMeta() {
